@@ -136,3 +136,72 @@ def big_cuts(rng, n):
         step = rng.choice([1000, 4096, 4095, 4097, 7, 100])
         return list(range(step, n, step))
     return rand_cuts(rng, n, rng.randint(2, 30))
+
+
+def small_stream(rng, nresp):
+    """Many small responses back to back (status-like replies of 1-3 short fields, some idle-like `changed:` replies):
+    response starts fall right before every internal buffer boundary. Returns (bytes, nresp, canon, bounds)."""
+    out = bytearray()
+    canon = bytearray()
+    bounds = []
+    for _ in range(nresp):
+        canon += b"resp|F"
+        for _ in range(rng.choice([0, 1, 1, 2, 3])):
+            k = rng.choice([b"changed", b"volume", b"state", b"a"])
+            v = rng.choice([b"player", b"mixer", b"5", b"play", b"", b"x" * rng.randint(0, 30)])
+            out += k + b": " + v + b"\n"
+            canon += k + b":" + v + b"\n"
+        out += b"OK\n"
+        canon += b"E-|"
+        bounds.append((len(out), len(canon)))
+    return bytes(out), nresp, canon, bounds
+
+
+def aligned_stream(rng):
+    """History + threshold: a response that makes the receive buffer grow past its initial 4096 bytes, directly followed by a
+    response that begins with one big component (long line or binary chunk), then a small one. Returns (bytes, nresp, canon, bounds)."""
+    out = bytearray()
+    canon = bytearray()
+    bounds = []
+
+    def field(k, v):
+        nonlocal out, canon
+        out += k + b": " + v + b"\n"
+        canon += k + b":" + v + b"\n"
+
+    def end():
+        nonlocal out, canon
+        out += b"OK\n"
+        canon += b"E-|"
+        bounds.append((len(out), len(canon)))
+
+    canon += b"resp|F"
+    if rng.random() < 0.5:
+        field(b"comment", b"x" * rng.choice([4090, 5000, 8190, 9000, 12000]))
+    else:
+        ln = rng.choice([4096, 5000, 8192, 9000])
+        p = bytes(rng.choice([10, 79, 75, 0, 255, 98]) for _ in range(ln))
+        out += b"binary: %d\n" % ln + p + b"\n"
+        canon += b"B%d:" % ln + p
+    end()
+    canon += b"resp|F"
+    if rng.random() < 0.5:
+        ln = rng.choice([4096, 6000, 10000, 20000])
+        p = bytes(rng.choice([10, 79, 75, 0, 255, 98]) for _ in range(ln))
+        out += b"binary: %d\n" % ln + p + b"\n"
+        canon += b"B%d:" % ln + p
+    else:
+        field(b"Title", b"y" * rng.choice([4096, 5000, 9000]))
+    end()
+    canon += b"resp|F"
+    field(b"volume", b"100")
+    end()
+    return bytes(out), 3, canon, bounds
+
+
+def aligned_cuts(bounds, n, leftover):
+    """Reads: fill the initial buffer exactly, then stop 3 bytes before the end of the first response, then deliver its last 3 bytes
+    together with exactly `leftover` bytes of the next response, then the rest."""
+    b1 = bounds[0][0]
+    cuts = [4096, b1 - 3, min(n, b1 + leftover)]
+    return sorted({c for c in cuts if 0 < c < n})
